@@ -75,7 +75,10 @@ def generate(prop, seed, tier):
     n_ops = S.int(1, 4)
     need_fitted = False
     for k in range(n_ops):
-        kind = S.wpick([("save", 5), ("load", 3), ("plot2d", 5), ("plot_dep", 1.2), ("plot_hist", 1), ("plot_iso", 1), ("plot_mq", 0.8), ("plot_dep3", 0.8)])
+        kind = S.wpick([("save", 5), ("load", 3), ("plot2d", 5), ("plot_dep", 1.2), ("plot_hist", 1), ("plot_iso", 1), ("plot_mq", 0.8), ("plot_dep3", 0.8), ("plot_iso_indep", 0.8)])
+        if kind == "plot_iso_indep":
+            ops.append({"op": "plot_iso_indep", "swap": S.chance(0.4), "levels": S.pick([None, [0.001, 0.01, 0.05]]), "n_grid": S.pick([120, 250]), "sseed": S.sub("isi", k), "semantics": None})
+            continue
         if kind == "plot_dep3":
             # a directly parameterised 3-D model with two conditional distributions (one panel per dependence function)
             ops.append({"op": "plot_dep3", "structure": S.pick([[None, 0, 1], [None, 0, 0]]), "own_axes": S.chance(0.4), "semantics": None})
@@ -89,7 +92,7 @@ def generate(prop, seed, tier):
             op["then_shorter"] = S.chance(0.35)
             ops.append(op)
         elif kind == "load":
-            op = {"op": "load", "rows": S.pick([1, 2, 3, 10, 100, 1000, 10000] if tier == "thorough" else [1, 2, 3, 10, 100, 1000]), "cols": S.int(1, 3), "fseed": S.sub("file", k), "prec": S.pick([4, 2, 6]), "final_newline": S.chance(0.8), "crlf": S.chance(0.2), "sep_style": S.pick(["; ", "; ", ";", ";  "]), "exp_notation": S.chance(0.15), "blank_tail": S.chance(0.15), "fault": None,
+            op = {"op": "load", "rows": S.pick([1, 2, 3, 10, 100, 1000, 10000] if tier == "thorough" else [1, 2, 3, 10, 100, 1000]), "cols": S.int(1, 3), "fseed": S.sub("file", k), "prec": S.pick([4, 2, 6]), "final_newline": S.chance(0.8), "crlf": S.chance(0.2), "sep_style": S.pick(["; ", "; ", ";", ";  "]), "stamp_order": S.wpick([("ascending", 4), ("descending", 1), ("two_campaigns", 1), ("repeated", 1)]), "exp_notation": S.chance(0.15), "blank_tail": S.chance(0.15), "fault": None,
                   # history: the caller changes the returned frame in place, then reads the same file again
                   "reload": S.wpick([(None, 3), ("scale", 1), ("drop", 1), ("rename", 1), ("plain", 1)])}
             if S.chance(0.5):
@@ -310,8 +313,18 @@ def do_load(run, scen, op, si, root):
     lines = ["time (YYYY-MM-DD-HH)" + sep + sep.join(names)]
     vals = []
     stamps = []
-    for r in range(op["rows"]):
-        t = start + datetime.timedelta(hours=r)
+    so = op.get("stamp_order", "ascending")
+    nrows = op["rows"]
+    for r in range(nrows):
+        if so == "descending":
+            hr = nrows - 1 - r
+        elif so == "two_campaigns":
+            hr = r + 5000 if r < nrows // 2 else r - nrows // 2  # the later campaign stands first in the file
+        elif so == "repeated":
+            hr = r // 2
+        else:
+            hr = r
+        t = start + datetime.timedelta(hours=hr)
         row = rng.uniform(0.0, 30.0, size=op["cols"])
         txt = [(f"{v:.{op['prec']}e}" if op.get("exp_notation") else f"{v:.{op['prec']}f}") for v in row]
         vals.append([float(s) for s in txt])
@@ -753,6 +766,14 @@ def execute(prop, scen):
                     do_plot2d(run, scen, op, si, model2, state)
                 elif op["op"] == "plot_dep3":
                     do_plot_dep3(run, scen, op, si)
+                elif op["op"] == "plot_iso_indep":
+                    # a 2-D model without dependence (two unconditional distributions) and a seeded sample of it
+                    S2 = core.SeedStream(scen["universe"]["jitter"])
+                    spec = {"dims": [{"family": "Weibull", "params": {"alpha": core.r6(S2.uni(2, 3.5)), "beta": core.r6(S2.uni(1.3, 2.2)), "gamma": 0.0}, "cond_on": None},
+                                     {"family": "LogNormal", "params": {"mu": core.r6(S2.uni(1.4, 2.0)), "sigma": core.r6(S2.uni(0.2, 0.4))}, "cond_on": None}]}
+                    mi = models.direct_model(spec)
+                    smp = np.asarray(mi.draw_sample(400, random_state=int(op["sseed"] % 100000)), dtype=float)
+                    do_plot_other(run, scen, dict(op, op="plot_iso"), si, (mi, smp, None))
                 else:
                     do_plot_other(run, scen, op, si, fitted)
                 if run.violations:
